@@ -96,10 +96,22 @@ def canon_mol(en: Enums, m, with_charges=True) -> dict:
         x, y, z = (float(v) for v in coords[i])
         atoms.append({"e": en.ei[en.Element(a.element)], "t": en.ti[en.AtomType(a.atype)],
                       "g": en.gi[en.AtomGeom(a.geom)], "label": a.label or "",
-                      "x": x, "y": y, "z": z, "c": float(charges[i]) if charges is not None else 0.0})
+                      "x": x, "y": y, "z": z, "c": float(charges[i]) if charges is not None else 0.0,
+                      "fc": int(a.formal_charge), "attrib": _attrib(a.attrib)})
     idx = {id(a): i for i, a in enumerate(m.atoms)}
     bonds = [(idx[id(b.a1)], idx[id(b.a2)], en.bi[en.BondType(b.btype)]) for b in m.bonds]
-    return {"name": m.name, "atoms": atoms, "bonds": bonds}
+    return {"name": m.name, "atoms": atoms, "bonds": bonds, "battrib": [_attrib(b.attrib) for b in m.bonds]}
+
+
+def _attrib(d) -> dict:
+    """every further field the reader fills: attributes as a str -> str mapping (order-free)"""
+    return {str(k): str(v) for k, v in (d or {}).items()}
+
+
+def _parse_attrib(s: str) -> dict:
+    if s in ("-", ""):
+        return {}
+    return {unhx(k): unhx(v) for k, v in (p.split("=") for p in s.split("&"))}
 
 
 def mol_request(mol: dict) -> str:
@@ -110,14 +122,22 @@ def mol_request(mol: dict) -> str:
 
 
 def parse_mol_response(s: str) -> dict:
-    nm, a, b = s.split(";")
+    parts = s.split(";")
+    nm, a, b = parts[:3]
     atoms = []
     for f in (a.split("|") if a else []):
         e, t, g, lab, x, y, z, c = f.split(",")
         atoms.append({"e": int(e), "t": int(t), "g": int(g), "label": unhx(lab), "x": num_value(x),
                       "y": num_value(y), "z": num_value(z), "c": num_value(c)})
     bonds = [tuple(int(v) for v in f.split(",")) for f in (b.split("|") if b else [])]
-    return {"name": unhx(nm), "atoms": atoms, "bonds": bonds}
+    out = {"name": unhx(nm), "atoms": atoms, "bonds": bonds}
+    if len(parts) == 6:          # read responses: formal charges, atom attributes, bond attributes
+        fcs = [int(v) for v in parts[3].split(",")] if parts[3] else []
+        aat = [_parse_attrib(v) for v in parts[4].split("|")] if atoms else []
+        for x, fc, at in zip(atoms, fcs, aat):
+            x["fc"], x["attrib"] = fc, at
+        out["battrib"] = [_parse_attrib(v) for v in parts[5].split("|")] if bonds else []
+    return out
 
 
 def parse_read_response(s: str):
@@ -128,7 +148,7 @@ def parse_read_response(s: str):
     return [parse_mol_response(p) for p in (body.split("#") if body else [])]
 
 
-def mols_equal(a, b, rel=0.0, abs_=0.0, charges=True, labels=True) -> bool:
+def mols_equal(a, b, rel=0.0, abs_=0.0, charges=True, labels=True, extras=True) -> bool:
     if a == "err" or b == "err":
         return a == b
     if len(a) != len(b):
@@ -146,6 +166,11 @@ def mols_equal(a, b, rel=0.0, abs_=0.0, charges=True, labels=True) -> bool:
                     return False
             if charges and not same_float(p["c"], q["c"], rel, abs_):
                 return False
+            # every further field the reader fills (present on both sides for read results)
+            if extras and "fc" in p and "fc" in q and (p["fc"] != q["fc"] or p.get("attrib", {}) != q.get("attrib", {})):
+                return False
+        if extras and "battrib" in m and "battrib" in n and m["battrib"] != n["battrib"]:
+            return False
     return True
 
 
@@ -154,6 +179,7 @@ def short_mols(r):
         return "err"
     return [{"name": m["name"], "n_atoms": len(m["atoms"]), "n_bonds": len(m["bonds"]),
              "atoms": [(a["e"], a["t"], a["g"], a["label"], a["x"], a["y"], a["z"], a["c"]) for a in m["atoms"][:4]],
+             "formal_charges": [a.get("fc") for a in m["atoms"]], "attribs": [a.get("attrib") for a in m["atoms"] if a.get("attrib")],
              "bonds": m["bonds"][:6]} for m in r[:4]]
 
 
@@ -297,16 +323,30 @@ def gen_mol_spec(rng, en: Enums, max_atoms: int, specials: bool, name=None) -> d
         atoms.append({"e": e, "t": rng.below(len(en.T)), "g": rng.below(len(en.G)), "label": gen_label(rng),
                       "x": gen_coord(rng, specials), "y": gen_coord(rng, specials), "z": gen_coord(rng, specials),
                       "c": gen_charge(rng, specials)})
+    # repeated labels (several atoms share one label)
+    if n >= 2 and rng.chance(1, 4):
+        lab = rng.choice(["C", "H1", "X", gen_label(rng)])
+        for a in atoms:
+            if rng.chance(1, 2):
+                a["label"] = lab
     bonds = []
-    if n >= 2:
-        nb = rng.weighted([(0, 1), (1, 2), (n - 1, 3), (n, 2), (2 * n, 1)])
+    if n >= 1:
+        nb = rng.weighted([(0, 1), (1, 2), (max(n - 1, 1), 3), (n, 2), (2 * n, 1)])
         seen = set()
         for _ in range(nb):
             i, j = rng.below(n), rng.below(n)
-            if i == j or (i, j) in seen or (j, i) in seen:
+            if i == j and not rng.chance(1, 6):          # a bond from an atom to itself: rare, the writer allows it
+                continue
+            if ((i, j) in seen or (j, i) in seen) and not rng.chance(1, 3):
                 continue
             seen.add((i, j))
             bonds.append((i, j, rng.below(len(en.B))))
+        # multigraph: 2..3 parallel bonds on one atom pair, same and different types, both orientations
+        if bonds and rng.chance(1, 3):
+            i, j, t = rng.choice(bonds)
+            for _ in range(rng.range(1, 2)):
+                t2 = t if rng.chance(2, 3) else rng.below(len(en.B))
+                bonds.insert(rng.below(len(bonds) + 1), (j, i, t2) if rng.chance(1, 2) else (i, j, t2))
     nm = name if name is not None else rng.choice(NAMES)
     return {"name": nm, "atoms": atoms, "bonds": bonds}
 
